@@ -233,6 +233,29 @@ func (s *Sys) compute(from *LState, e Event) *LState {
 	return st
 }
 
+// panicBox carries a panic out of worker goroutines so that it can be re-raised in the caller
+// (a construction failure of the scenario must reach the check, not kill the process).
+type panicBox struct {
+	mu sync.Mutex
+	v  interface{}
+}
+
+func (b *panicBox) guard() {
+	if x := recover(); x != nil {
+		b.mu.Lock()
+		if b.v == nil {
+			b.v = x
+		}
+		b.mu.Unlock()
+	}
+}
+
+func (b *panicBox) rethrow() {
+	if b.v != nil {
+		panic(b.v)
+	}
+}
+
 type need struct {
 	from *LState
 	e    Event
@@ -246,6 +269,7 @@ func (s *Sys) resolve(needs []need, workers int) {
 	}
 	out := make([]res, len(needs))
 	var wg sync.WaitGroup
+	var pb panicBox
 	sem := make(chan struct{}, workers)
 	for i := range needs {
 		wg.Add(1)
@@ -253,10 +277,12 @@ func (s *Sys) resolve(needs []need, workers int) {
 		go func(i int) {
 			defer wg.Done()
 			defer func() { <-sem }()
+			defer pb.guard()
 			out[i] = res{needs[i], s.compute(needs[i].from, needs[i].e)}
 		}(i)
 	}
 	wg.Wait()
+	pb.rethrow()
 	for _, r := range out {
 		p := r.n.from.Node
 		s.LocalTransitions++
